@@ -6,7 +6,7 @@ from . import common as C
 
 FORMULAS = {
     "C11": ["SafeOps", "OpResult", "DispatchLive", "DispatchMethod", "NoFalseUnimplemented", "NoneIsUnimplemented", "NoOpChanged", "Panic"],
-    "C12": ["PublishedImmutable", "FailedRegNoChange", "AtomicInterval", "KeepServing"],
+    "C12": ["PublishedImmutable", "FailedRegNoChange", "AtomicInterval", "KeepServing", "RemovedTogether"],
 }
 NEGS = {"Shallow": "PublishedImmutable", "TwoLoads": "NoTornAnswer", "PerMethod": "AtomicVisibility"}
 
